@@ -83,6 +83,14 @@ def run_case(case, run, variant, reserved=None):
     ev, err, bases = [], "", [""] * n
     try:
         ns = build_signal_namespace(coll, reserved_keywords=reserved)
+        # names the construction itself already handed out (build_signal_namespace registers the signals with a
+        # name_override): these are get_name calls of the real code too, recorded in the order they were made
+        # (the table is insertion ordered) with the name each got (asking again is stable)
+        index = {id(x): i for i, x in enumerate(sigs)}
+        for x in list(getattr(ns, "sigs", {})):
+            if id(x) in index:
+                nm = ns.get_name(x)
+                ev.append([index[id(x)] + 1, nm if isinstance(nm, str) else repr(nm)])
         for s in run["req"]:
             nm = ns.get_name(sigs[s - 1])
             ev.append([int(s), nm if isinstance(nm, str) else repr(nm)])
